@@ -476,7 +476,7 @@ fn gen_transport(run: &mut Run, prop: &str, seed: u64, thorough: bool) {
                     run_transport(&cfg, &mut sc);
                     run.add("transport", format!("{prop} transport {n} {res} #{rep}"), sc);
                 }
-                if matches!(prop, "C04" | "C09" | "C16" | "C15" | "C10") {
+                if matches!(prop, "C04" | "C09" | "C16" | "C15" | "C10" | "C19" | "C14") {
                     let mut sc = Sc::new();
                     run_stateless(&cfg, &mut sc);
                     run.add("stateless", format!("{prop} stateless {n} {res} #{rep}"), sc);
